@@ -1,5 +1,5 @@
 SPECIFICATION Spec
-CONSTANT MaxLen = 7
+CONSTANT MaxLen = 6
 CONSTANT Instances = {"frame"}
 INVARIANT DepsExact
 INVARIANT ConflictsOrdered
